@@ -45,18 +45,19 @@ type Proxy struct {
 	P    ProxyParams
 	Prop string
 
-	codec     peers.XCodec
-	clients   []*peers.XClient
-	ups       []*peers.XUpstream
-	hostAddrs []string
-	lisAddr   string
-	hostMode  map[string]int // 0 accept, 1 refuse, 2 blackhole
-	finished  bool
-	finalAt   time.Duration
-	finalSet  bool
-	lastSend  time.Duration
-	cfgJSON   []byte
-	Stats     map[string]int
+	codec        peers.XCodec
+	clients      []*peers.XClient
+	ups          []*peers.XUpstream
+	hostAddrs    []string
+	lisAddr      string
+	hostMode     map[string]int // 0 accept, 1 refuse, 2 blackhole
+	finished     bool
+	finalAt      time.Duration
+	finalSet     bool
+	lastSend     time.Duration
+	sendsPending int
+	cfgJSON      []byte
+	Stats        map[string]int
 }
 
 func pickFrom[T any](ch *sim.Choices, stream, label string, opts []T) T {
@@ -296,7 +297,7 @@ func (w *Proxy) Setup() error {
 		for k := 0; k < p.ReqsPerConn; k++ {
 			reqIdx++
 			t += pickFrom(ch, "work", "gap", []time.Duration{0, 0, time.Millisecond, 10 * time.Millisecond, 100 * time.Millisecond})
-			tok := hex.EncodeToString(ch.Bytes("work", 8))
+			tok := fmt.Sprintf("%016x", sim.Mix(ch.Seed^0x746f6b656e, uint64(reqIdx))) // unique by construction, not a choice
 			r := &peers.ReqRec{ID: idBase + uint64(k) + 1, Token: tok}
 			r.Oneway = p.Oneway && ch.Chance("work", "oneway", 1, 4)
 			nAtt := 1 + p.NumRetries
@@ -326,7 +327,9 @@ func (w *Proxy) Setup() error {
 			r.Extra["ptimeout"] = fmt.Sprint(f.Timeout)
 			w.H.Add(r)
 			tt := t
+			w.sendsPending++
 			s.At(tt, fmt.Sprintf("send:req#%d", r.Idx), func() {
+				w.sendsPending--
 				if cl.Conn == nil && !cl.Tried {
 					cl.Tried = true
 					cl.Conn = w.N.Connect(w.lisAddr, cl.Name, cl)
@@ -347,6 +350,18 @@ func (w *Proxy) Setup() error {
 		}
 	}
 	s.Quiesce = append(s.Quiesce, w.quiescent)
+	// wake the scheduler when the liveness bound of the last request expires, even
+	// if the system under test has gone completely silent by then
+	var dl time.Duration
+	for _, r := range w.H.Reqs {
+		if b := w.lastSend + w.bound(r) + time.Second; b > dl {
+			dl = b
+		}
+	}
+	s.At(dl, "deadline", func() {})
+	if s.Horizon < dl+3*time.Minute {
+		s.Horizon = dl + 3*time.Minute
+	}
 	return nil
 }
 
@@ -374,9 +389,6 @@ func (w *Proxy) bound(r *peers.ReqRec) time.Duration {
 }
 
 func (w *Proxy) resolved(r *peers.ReqRec) bool {
-	if r.SentAt == 0 && w.S.Now() <= w.lastSend {
-		return false
-	}
 	return r.Oneway || len(r.Replies) > 0 || r.ClientLeftAt > 0 || r.ConnClosedAt > 0 || r.ConnID == 0
 }
 
@@ -385,7 +397,7 @@ func (w *Proxy) quiescent() {
 		return
 	}
 	now := w.S.Now()
-	if now <= w.lastSend {
+	if now < w.lastSend || w.sendsPending > 0 {
 		return
 	}
 	all := true
